@@ -79,6 +79,9 @@ def minP (n : Nat) : Rat := (2 : Rat) / ((choose (2 * n) n : Nat) : Rat)
 
 /-! ### floats as exact (extended) rationals -/
 
+/-- `minP n` as the nearest float64 (thresholds are floats: the comparison `minP ≤ α` is made there) -/
+def minPF (n : Nat) : F64.Bits := F64.roundRat false 2 (choose (2 * n) n)
+
 /-- exact value of a finite float -/
 def toRat (b : F64.Bits) : Rat :=
   let (s, n, d) := F64.toRatParts b
@@ -363,7 +366,7 @@ def judgeCompare (a : String) (v1 v2 : List F64.Bits) (alpha old new : F64.Bits)
     if a != "nothing" || i.warn.startsWith "err" then "ok" else
     match ev i.p, ev i.alpha with
     | .fin q, .fin al =>
-      let need := match (List.range 9).find? (fun k => minP (k + 1) ≤ al) with
+      let need := match (List.range 9).find? (fun k => toRat (minPF (k + 1)) ≤ al) with
         | some k => ("ge", k + 1)
         | none => ("gt", 10)
       let want := if q > al && i.n1 < need.2 && i.n2 < need.2 then s!"need:{need.1}:{need.2}" else "-"
@@ -380,6 +383,6 @@ def judgeRenderCmp (p alpha : F64.Bits) (n1 n2 : Nat) (old new : F64.Bits) (delt
 
 /-- the table must be 2/C(2n,n) correctly rounded -/
 def judgeMinP (tab : List F64.Bits) : String :=
-  okIf (tab.length == 9 && (tab.zipIdx 1).all fun e => e.1 == F64.roundRat false 2 (choose (2 * e.2) e.2)) "not-2/C(2n,n)"
+  okIf (tab.length == 9 && (tab.zipIdx 1).all fun e => e.1 == minPF e.2) "not-2/C(2n,n)"
 
 end Spec.MathSpec
